@@ -1,24 +1,46 @@
-"""C03 — schema invariant of a typed pg.List: generator, implementation runner, oracle.
+"""C03 — schema invariant of typed pg.List / pg.Dict / pg.Object: generator, implementation runner, oracle.
 
-Case shape: {"spec": <list spec description (harness/typing_vocab.py)>, "items": [<value>...],
-             "ops": [["append", v] | ["insert", i, v] | ["setitem", i, v] | ["delitem", i] | ["pop", i]
-                     | ["remove", v] | ["extend", [v...]] | ["clear"]]}
+Case shapes (descriptions and values: harness/typing_vocab.py):
+  {"kind": "list", "spec": <list spec desc>, "items": [v...], "ops": [<list op>...]}
+      list ops: ["append", v] ["insert", i, v] ["setitem", i, v] ["setslice", a, b, c, [v...]] ["delitem", i]
+                ["delslice", a, b, c] ["pop", i] ["remove", v] ["extend", [v...]] ["iadd", [v...]] ["imul", n]
+                ["clear"] ["sort"] ["reverse"] ["rebind", [[k, is_insertion, v]...]]
+  {"kind": "dict" | "object", "spec": <dict spec desc with fields>, "partial": bool, "items": [[k, v]...],
+   "ops": [[<dict op>, scope]...]}        scope: null | bool = an enclosing `pg.allow_partial(scope)`
+      dict ops: ["setitem", k, v] ["delitem", k] ["pop", k] ["setdefault", k, v] ["update", [[k, v]...]]
+                ["ior", [[k, v]...]] ["rebind", [[k, v]...]] ["clear"] ["popitem"];  object: ["setattr", k, v], ["rebind", ...]
 
-Implementation observables (public API only): pg.List(items, value_spec=...) or its exception class,
-after every mutating call the exception class (if any) and the list content; the element spec
-re-applied to every stored member; len(list) against the spec bounds.
+Implementation observables (public API only): constructor result or exception class; after every
+mutating call the exception class and the container content; every stored member re-applied to its
+element / field spec; declared keys; required keys; len(list) against the bounds.
 """
 
+import contextlib
 import copy
 import json
 
 from harness.common.framework import Prop
 from harness import typing_vocab as tv
+from translate import t_c03
 
 SCHEMA_ERRS = ('TypeError', 'ValueError', 'KeyError')
+ATOM_KINDS = ('int', 'float', 'str', 'bool', 'enum')
+_CLS_COUNTER = [0]
 
 
-def run_op(lst, op):
+def arg_py(pg, a):
+  """A write argument: a plain value or ["typed", <src spec desc>, <allow_partial>, <content>] = an
+  already typed pg.List / pg.Dict bound to `src`."""
+  if a and a[0] == 'typed':
+    spec = tv.build(a[1])
+    content = tv.to_py(a[3])
+    if isinstance(content, list):
+      return pg.List(content, value_spec=spec, allow_partial=a[2])
+    return pg.Dict(content, value_spec=spec, allow_partial=a[2])
+  return tv.to_py(a)
+
+
+def run_list_op(pg, lst, op):
   k = op[0]
   if k == 'append':
     lst.append(tv.to_py(op[1]))
@@ -26,117 +48,417 @@ def run_op(lst, op):
     lst.insert(op[1], tv.to_py(op[2]))
   elif k == 'setitem':
     lst[op[1]] = tv.to_py(op[2])
+  elif k == 'setslice':
+    lst[op[1]:op[2]:op[3]] = [tv.to_py(v) for v in op[4]]
   elif k == 'delitem':
     del lst[op[1]]
+  elif k == 'delslice':
+    del lst[op[1]:op[2]:op[3]]
   elif k == 'pop':
     lst.pop(op[1])
   elif k == 'remove':
     lst.remove(tv.to_py(op[1]))
   elif k == 'extend':
     lst.extend([tv.to_py(v) for v in op[1]])
+  elif k == 'extend_iter':
+    lst.extend(iter([tv.to_py(v) for v in op[1]]))
+  elif k == 'iadd':
+    lst += [tv.to_py(v) for v in op[1]]
+  elif k == 'iadd_iter':
+    lst += (tv.to_py(v) for v in op[1])
+  elif k == 'imul':
+    lst *= op[1]
   elif k == 'clear':
     lst.clear()
+  elif k == 'sort':
+    lst.sort()
+  elif k == 'reverse':
+    lst.reverse()
+  elif k == 'rebind':
+    lst.rebind({kk: (pg.Insertion(tv.to_py(v)) if ins else tv.to_py(v)) for kk, ins, v in op[1]},
+               raise_on_no_change=False)
   else:
     raise ValueError(k)
+
+
+def prebuild(pg, op):
+  """The op with its write arguments converted to Python objects (typed containers are created
+  here, outside any allow_partial scope of the call itself)."""
+  k = op[0]
+  if k in ('setitem', 'setattr', 'setdefault'):
+    return [k, op[1], arg_py(pg, op[2])]
+  if k in ('update', 'ior', 'rebind'):
+    return [k, {kk: arg_py(pg, v) for kk, v in op[1]}]
+  return op
+
+
+def run_dict_op(pg, target, op, is_object):
+  """`op` comes from prebuild()."""
+  k = op[0]
+  if k == 'setitem':
+    target[op[1]] = op[2]
+  elif k == 'setattr':
+    with pg.allow_writable_accessors(True):
+      setattr(target, op[1], op[2])
+  elif k == 'delitem':
+    del target[op[1]]
+  elif k == 'pop':
+    target.pop(op[1])
+  elif k == 'setdefault':
+    target.setdefault(op[1], op[2])
+  elif k == 'update':
+    target.update(op[1])
+  elif k == 'ior':
+    target |= op[1]
+  elif k == 'rebind':
+    target.rebind(op[1], raise_on_no_change=False)
+  elif k == 'clear':
+    target.clear()
+  elif k == 'popitem':
+    target.popitem()
+  else:
+    raise ValueError(k)
+
+
+def canon(v):
+  """Wire value with dict items sorted by key at every depth (key order is not a schema matter)."""
+  if isinstance(v, list) and v and v[0] == 'd' and len(v) == 2:
+    return ['d', sorted([[k, canon(x)] for k, x in v[1]])]
+  if isinstance(v, list) and v and v[0] in ('l', 't') and len(v) == 2:
+    return [v[0], [canon(x) for x in v[1]]]
+  return v
+
+
+def member_ok(value_spec, wire, partial):
+  """The stored member (wire form), JSON-round-tripped, is accepted by its spec and mapped to itself."""
+  try:
+    y = value_spec.apply(tv.to_py(wire), allow_partial=partial)
+  except (TypeError, ValueError, KeyError):
+    return False
+  return canon(tv.from_py(y)) == canon(wire)
 
 
 class C03(Prop):
   id = 'C03'
   props_modules = ['PgProps.C03']
   driver = 'drv_c03'
-  translators = []
+  translators = [t_c03.run]
   case_timeout_s = 20
-  rule = ('typed pg.List over List(elem, min_size, max_size) with elem from int/float ranges, str, bool, enum '
-          '(noneable / default / frozen flags); initial items valid by construction (10 % invalid); histories of '
-          '1-8 mutating calls (append, insert, setitem, delitem, pop, remove, extend, clear), about half of '
-          'the written values invalid (wrong type, out of range) and sizes steered to the bounds. '
-          'Non-trivial: construction succeeds and at least one call succeeds and one is rejected or hits a bound; '
-          'distinct: by the whole case.')
+  rule = ('three streams: typed pg.List over List(elem, min_size, max_size) with atom element specs (int/float '
+          'ranges, str, bool, enum; flags) and histories over 15 list write paths (append, insert, item and slice '
+          'assignment, item and slice deletion, pop, remove, extend, +=, *=, clear, sort, reverse, rebind with '
+          'Insertion / MISSING / past-the-end keys); typed pg.Dict and pg.Object over schemas of 1-3 const keys '
+          '(+ optional dynamic StrKey for Dict) whose field specs come from the whole C04 vocabulary (nesting depth '
+          '<= 1: list / tuple / dict / union / object fields, noneable / default / frozen), constructed with '
+          'allow_partial on or off, histories over setitem / setattr / delitem / pop / setdefault / update / |= / '
+          'rebind (MISSING included) / clear / popitem under optional pg.allow_partial scopes; about half of the '
+          'written values invalid (wrong type, out of range, unknown key, too long / short). Non-trivial: construction '
+          'succeeds, at least one call succeeds and at least one is rejected; distinct: by the whole case.')
   trusted_base = [
-      'modelled, not verified: construction and 8 mutators of a typed pg.List (tied by correspondence); the '
-      'value-spec model of C04 underneath',
-      'outside the model: typed pg.Dict / pg.Object, slice assignment, rebind, symbolic element values, '
-      'allow_partial scopes, type-check off',
+      'modelled, not verified: construction and the write paths of typed pg.List / pg.Dict / pg.Object listed in '
+      'PgModel/SymTyped.lean (tied by correspondence), on top of the value-spec model of C04',
+      'translator translate/t_c03.py (ast): which list mutators consult max_size / min_size and route through the '
+      'write primitive; obligations PgGen/C03Obligations discharged by decide',
+      'outside the model: type-check off, nested key paths in rebind, sealed / accessor_writable (C08), '
+      'notification (C09), re-parenting (C01)',
   ]
-  assumptions = ['element values are atoms (no nested symbolic values); int indices']
+  assumptions = ['typed lists are exercised with allow_partial off; list element values are atoms',
+                 'the field specs of the Dict/Object theorems are idempotent under apply (proved for the C04 fragment)']
 
+  # -- generation --------------------------------------------------------------------------
   def generate(self, rng, tier):
     self.setup_impl()
-    n = 500 if tier == 'quick' else 12000
+    n = 360 if tier == 'quick' else 9000
     g = tv.SpecGen(rng)
-    made = 0
-    while made < n:
-      elem = None
-      while elem is None or elem['k'] not in ('int', 'float', 'str', 'bool', 'enum'):
-        elem = g.spec(0)
+    for i in range(n):
+      if i % 2 == 0:
+        yield self.gen_list(rng, g)
+      else:
+        yield self.gen_dict(rng, g, 'dict' if i % 4 == 1 else 'object')
+
+  def gen_list(self, rng, g):
+    while True:
+      elem = g.spec(0)
+      if elem['k'] not in ATOM_KINDS:
+        continue
       mn, mx = g.sizes()
       spec = {'k': 'list', 'elem': elem, 'mn': mn, 'mx': mx, 'n': 0}
       try:
         tv.build(spec)
       except (TypeError, ValueError, KeyError):
         continue
-      lo = mn or 0
-      hi = mx if mx is not None else lo + 3
-      size = rng.randint(lo, max(lo, hi))
-      if rng.chance(0.1):
-        size = rng.choice([max(0, lo - 1), hi + 1])
-      items = [g.valid(elem) for _ in range(size)]
-      if rng.chance(0.1) and items:
-        items[rng.below(len(items))] = g.near_miss(elem)
-      ops = []
-      length = size
-      for _ in range(rng.randint(1, 8)):
-        v = g.valid(elem) if rng.chance(0.55) else g.near_miss(elem)
-        k = rng.weighted([(3, 'append'), (2, 'insert'), (3, 'setitem'), (2, 'delitem'), (2, 'pop'), (1, 'remove'),
-                          (2, 'extend'), (1, 'clear')])
-        if k == 'append':
-          ops.append(['append', v])
-        elif k == 'insert':
-          ops.append(['insert', rng.randint(0, max(length, 0)), v])
-        elif k == 'setitem':
-          ops.append(['setitem', rng.randint(-length - 1, length), v])
-        elif k in ('delitem', 'pop'):
-          ops.append([k, rng.randint(-length - 1, length)])
-        elif k == 'remove':
-          ops.append(['remove', copy.deepcopy(rng.choice(items)) if items and rng.chance(0.7) else v])
-        elif k == 'extend':
-          ops.append(['extend', [g.valid(elem) if rng.chance(0.8) else g.near_miss(elem) for _ in range(rng.randint(0, 3))]])
+      break
+    lo = mn or 0
+    hi = mx if mx is not None else lo + 3
+    size = rng.randint(lo, max(lo, hi))
+    if rng.chance(0.08):
+      size = rng.choice([max(0, lo - 1), hi + 1])
+    items = [g.valid(elem) for _ in range(size)]
+    if rng.chance(0.08) and items:
+      items[rng.below(len(items))] = g.near_miss(elem)
+    sortable = elem['k'] in ('int', 'float', 'str', 'bool') and not elem.get('n')
+    ops = []
+    length = size
+
+    def val():
+      return g.valid(elem) if rng.chance(0.6) else g.near_miss(elem)
+
+    for _ in range(rng.randint(1, 8)):
+      k = rng.weighted([(3, 'append'), (2, 'insert'), (3, 'setitem'), (3, 'setslice'), (2, 'delitem'), (2, 'delslice'),
+                        (2, 'pop'), (1, 'remove'), (2, 'extend'), (1, 'iadd'), (1, 'imul'), (1, 'clear'),
+                        (1, 'sort'), (1, 'reverse'), (3, 'rebind')])
+      if k == 'append':
+        ops.append(['append', val()])
+      elif k == 'insert':
+        ops.append(['insert', rng.randint(-length - 1, length + 1), val()])
+      elif k == 'setitem':
+        ops.append(['setitem', rng.randint(-length - 1, length), val()])
+      elif k == 'setslice':
+        a, b = rng.randint(-length - 1, length + 1), rng.randint(-length - 1, length + 1)
+        c = rng.weighted([(5, 1), (2, 2), (2, -1)])
+        ops.append(['setslice', a, b, c, [g.valid(elem) if rng.chance(0.85) else g.near_miss(elem) for _ in range(rng.randint(0, 3))]])
+      elif k in ('delitem', 'pop'):
+        ops.append([k, rng.randint(-length - 1, length)])
+      elif k == 'delslice':
+        ops.append(['delslice', rng.randint(-length - 1, length + 1), rng.randint(-length - 1, length + 1), rng.weighted([(5, 1), (2, 2), (2, -1)])])
+      elif k == 'remove':
+        ops.append(['remove', copy.deepcopy(rng.choice(items)) if items and rng.chance(0.7) else val()])
+      elif k in ('extend', 'iadd'):
+        if rng.chance(0.4):
+          k = k + '_iter'      # an unsized iterable (iterator / generator) as argument
+        ops.append([k, [g.valid(elem) if rng.chance(0.8) else g.near_miss(elem) for _ in range(rng.randint(0, 3))]])
+      elif k == 'imul':
+        ops.append(['imul', rng.randint(-1, 2)])
+      elif k == 'sort':
+        if sortable:
+          ops.append(['sort'])
+      elif k == 'rebind':
+        keys = rng.sample(list(range(0, length + 2)), rng.randint(1, min(3, length + 2)))
+        ent = []
+        for kk in keys:
+          c = rng.below(10)
+          if c < 5:
+            ent.append([kk, False, val()])
+          elif c < 8:
+            ent.append([kk, True, val()])
+          else:
+            ent.append([kk, False, ['M']])
+        ops.append(['rebind', ent])
+      else:
+        ops.append([k])
+    return {'kind': 'list', 'spec': spec, 'items': items, 'ops': ops}
+
+  def gen_dict(self, rng, g, kind):
+    while True:
+      names = rng.sample(['x', 'y', 'z', 'w'], rng.randint(1, 3))
+      fields = []
+      for nm in names:
+        fd = g.spec(rng.weighted([(3, 0), (3, 1)]))
+        if fd['k'] not in ('list', 'dict', 'union') and rng.chance(0.25):
+          inner = g.spec(1)
+          if inner['k'] in ('list', 'dict') and (inner['k'] != 'dict' or inner.get('fields')):
+            inner['n'] = 0
+            inner.pop('d', None)
+            inner.pop('fz', None)
+            fd = inner if rng.chance(0.5) else {'k': 'union', 'cands': [inner, {'k': 'str', 'rx': None, 'n': 0}], 'n': 0}
+        if fd['k'] in ('list', 'tuple', 'dict', 'union'):
+          # a noneable container field re-applies its (symbolic) default through CustomTyping,
+          # which is outside the value-spec model
+          fd['n'] = 0
+          if fd.get('d') == ['N']:
+            fd.pop('d')
+            fd.pop('fz', None)
+        fields.append([['c', nm], fd])
+      if kind == 'dict' and rng.chance(0.35):
+        fields.append([['k', rng.choice([None, 0, 1])], g.spec(0)])
+      spec = {'k': 'dict', 'fields': fields, 'n': 0}
+      try:
+        tv.build(spec)
+      except (TypeError, ValueError, KeyError):
+        continue
+      break
+    partial = rng.chance(0.25)
+    dyn = [f for f in fields if f[0][0] == 'k']
+    dyn_names = {None: ['p', 'ab', 'b', 'q'], 0: ['ab', 'abc', 'a'], 1: ['b', 'xb', 'ab']}[dyn[0][0][1]] if dyn else []
+    dyn_names = [n for n in dyn_names if n not in names]
+
+    def field_of(key):
+      for f in fields:
+        if f[0][0] == 'c' and f[0][1] == key:
+          return f[1]
+      return dyn[0][1] if dyn and key in dyn_names else None
+
+    def container_desc(fd):
+      if fd['k'] == 'list' or (fd['k'] == 'dict' and fd.get('fields')):
+        return fd
+      if fd['k'] == 'union':
+        cs = [c for c in fd['cands'] if c['k'] == 'list' or (c['k'] == 'dict' and c.get('fields'))]
+        return rng.choice(cs) if cs else None
+      return None
+
+    def typed_arg(fd):
+      """An already typed pg.List / pg.Dict bound to a spec related to the field's."""
+      import pyglove as pg
+      cd = container_desc(fd)
+      if cd is None:
+        return None
+      src = copy.deepcopy(cd)
+      for _ in range(rng.below(3)):
+        m = g.mutate(src)
+        if m['k'] == cd['k'] and (m['k'] != 'dict' or m.get('fields')):
+          src = m
+      src.pop('d', None)
+      src.pop('fz', None)
+      src['n'] = 0
+      sp = rng.chance(0.3)
+      content = g.valid(src)
+      if sp and content[0] == 'd' and content[1] and rng.chance(0.6):
+        content = ['d', content[1][1:]]
+      a = ['typed', src, sp, content]
+      try:
+        c = arg_py(pg, a)
+      except (TypeError, ValueError, KeyError):
+        return None
+      a[3] = tv.from_py(c)
+      return a
+
+    def val(key):
+      fd = field_of(key)
+      if fd is None:
+        return copy.deepcopy(rng.choice(tv.ATOMS[:10]))
+      if rng.chance(0.5):
+        a = typed_arg(fd)
+        if a is not None:
+          return a
+      c = rng.below(20)
+      if c < 11:
+        return g.valid(fd)
+      if c < 18:
+        return g.near_miss(fd)
+      return ['M']
+
+    def key():
+      c = rng.below(10)
+      if c < 6:
+        return rng.choice(names)
+      if c < 8 and dyn_names:
+        return rng.choice(dyn_names)
+      return rng.choice(['zz', 'q', 'extra'] + names)
+
+    items = []
+    for f in fields:
+      if f[0][0] == 'c':
+        has_default = f[1].get('d') is not None
+        if has_default and rng.chance(0.4):
+          continue
+        if rng.chance(0.07):
+          continue
+        items.append([f[0][1], g.valid(f[1]) if rng.chance(0.93) else g.near_miss(f[1])])
+    for nm in rng.sample(dyn_names, rng.below(min(3, len(dyn_names) + 1))) if dyn_names else []:
+      items.append([nm, g.valid(dyn[0][1])])
+    if rng.chance(0.05):
+      items.append(['zz', ['i', 1]])
+    ops = []
+    for _ in range(rng.randint(1, 7)):
+      scope = rng.weighted([(8, None), (1, True), (1, False)])
+      if kind == 'object':
+        c = rng.below(10)
+        if c < 5:
+          k = rng.choice(names)      # an undeclared name is a plain Python attribute, not a symbolic write
+          op = ['setattr', k, val(k)]
         else:
-          ops.append(['clear'])
-      made += 1
-      yield {'spec': spec, 'items': items, 'ops': ops}
+          ks = rng.sample(names + (['zz'] if rng.chance(0.1) else []), rng.randint(1, min(2, len(names))))
+          op = ['rebind', [[kk, val(kk)] for kk in ks]]
+      else:
+        c = rng.weighted([(4, 'setitem'), (2, 'delitem'), (1, 'pop'), (1, 'setdefault'), (2, 'update'), (1, 'ior'),
+                          (3, 'rebind'), (1, 'clear'), (1, 'popitem')])
+        if c in ('setitem', 'setdefault'):
+          k = key()
+          op = [c, k, val(k)]
+        elif c in ('delitem', 'pop'):
+          op = [c, key()]
+        elif c in ('update', 'ior', 'rebind'):
+          ks = []
+          for _ in range(rng.randint(1, 3)):
+            k = key()
+            if k not in ks:
+              ks.append(k)
+          kvs = [[kk, val(kk)] for kk in ks]
+          if c != 'rebind':
+            kvs = [[kk, v if v != ['M'] else g.valid(field_of(kk)) if field_of(kk) else ['i', 1]] for kk, v in kvs]
+          op = [c, kvs]
+        else:
+          op = [c]
+      ops.append([op, scope])
+    return {'kind': kind, 'spec': spec, 'partial': partial, 'items': items, 'ops': ops}
+
+  # -- execution ---------------------------------------------------------------------------
+  def all_values(self, case):
+    vals = []
+
+    def walk(x):
+      if isinstance(x, list):
+        if x and isinstance(x[0], str) and x[0] in ('M', 'N', 'b', 'i', 'f', 's', 'l', 't', 'd', 'o'):
+          vals.append(x)
+        else:
+          for y in x:
+            walk(y)
+    walk(case['items'])
+    walk(case['ops'])
+    return vals
 
   def model_request(self, case):
     self.setup_impl()
+    case = self.normalise(case)
     try:
       st = tv.readback(tv.build(case['spec']))
     except (TypeError, ValueError, KeyError):
       return None
-    vals = list(case['items'])
-    for op in case['ops']:
-      for a in op[1:]:
-        if isinstance(a, list) and a and isinstance(a[0], str):
-          vals.append(a)
-        elif isinstance(a, list):
-          vals += a
-    return {'op': 'list', 'spec': st, 'items': case['items'], 'ops': case['ops'],
-            'env': tv.env_for([st], vals)}
+    states = [st]
+
+    def conv(x):
+      if isinstance(x, list):
+        if x and x[0] == 'typed':
+          sst = tv.readback(tv.build(x[1]))
+          states.append(sst)
+          return ['typed', sst, x[2], x[3]]
+        return [conv(y) for y in x]
+      return x
+    ops = conv(case['ops'])
+    req = {'op': case['kind'], 'spec': st, 'items': case['items'], 'ops': ops,
+           'env': tv.env_for(states, self.atom_values(case))}
+    if case['kind'] != 'list':
+      req['partial'] = case['partial']
+    return req
+
+  def atom_values(self, case):
+    out = []
+    for v in self.all_values(case):
+      try:
+        tv.strings_in(v, set())
+        out.append(v)
+      except Exception:   # not a value
+        pass
+    return out
+
+  def normalise(self, case):
+    if 'kind' not in case:
+      case = dict(case, kind='list')
+    return case
 
   def impl(self, case):
     import pyglove as pg
+    case = self.normalise(case)
     spec = tv.build(case['spec'])
     st = tv.readback(spec)
     out = {'state': st}
+    if case['kind'] == 'list':
+      return self.impl_list(pg, case, spec, out)
+    return self.impl_dict(pg, case, spec, out)
 
+  def impl_list(self, pg, case, spec, out):
     def conforms(lst):
-      ok = True
-      for x in lst:
-        try:
-          y = spec.element.value.apply(copy.deepcopy(x))
-          if tv.from_py(y) != tv.from_py(x):
-            ok = False
-        except (TypeError, ValueError, KeyError):
-          ok = False
+      ok = all(member_ok(spec.element.value, tv.from_py(x), False) for x in lst.sym_values())
       if len(lst) < spec.min_size or (spec.max_size is not None and len(lst) > spec.max_size):
         ok = False
       return ok
@@ -150,39 +472,143 @@ class C03(Prop):
     for op in case['ops']:
       err = None
       try:
-        run_op(lst, op)
+        run_list_op(pg, lst, op)
       except (TypeError, ValueError, KeyError, IndexError) as e:
         err = type(e).__name__
       m['steps'].append({'err': err, 'items': tv.from_py(lst)[1], 'conforms': conforms(lst)})
     out['model'] = m
+    out['typed'] = lst.value_spec is not None
     return out
 
+  def impl_dict(self, pg, case, spec, out):
+    is_object = case['kind'] == 'object'
+    schema = spec.schema
+
+    def content(target):
+      return sorted([[k, canon(tv.from_py(v))] for k, v in target.sym_items()])
+
+    def conforms(target, partial):
+      for k, v in target.sym_items():
+        field = schema.get_field(k)
+        if field is None or not member_ok(field.value, tv.from_py(v), partial):
+          return False
+      keys = set(target.sym_keys())
+      for ks in schema.keys():
+        if ks.is_const and str(ks) not in keys:
+          return False
+      return True
+
+    kwargs = {k: tv.to_py(v) for k, v in case['items']}
+    try:
+      if is_object:
+        _CLS_COUNTER[0] += 1
+        cls = pg.members([(f.key, f.value) for f in schema.values()])(
+            type('C03Obj%d' % _CLS_COUNTER[0], (pg.Object,), {}))
+        target = cls(allow_partial=case['partial'], **kwargs)
+      else:
+        target = pg.Dict(kwargs, value_spec=spec, allow_partial=case['partial'])
+    except (TypeError, ValueError, KeyError) as e:
+      out['model'] = {'construct': type(e).__name__, 'steps': []}
+      return out
+    m = {'construct': content(target), 'conforms': conforms(target, True), 'complete': conforms(target, False), 'steps': []}
+    typed = []
+    for op, scope in case['ops']:
+      err = None
+      ctx = pg.allow_partial(scope) if scope is not None else contextlib.nullcontext()
+      pyop = prebuild(pg, op)
+      try:
+        with ctx:
+          run_dict_op(pg, target, pyop, is_object)
+      except (TypeError, ValueError, KeyError, IndexError) as e:
+        err = type(e).__name__
+      m['steps'].append({'err': err, 'items': content(target), 'conforms': conforms(target, True),
+                         'complete': conforms(target, False)})
+      typed.append(is_object or target.value_spec is not None)
+    out['model'] = m
+    out['typed'] = all(typed) if typed else True
+    return out
+
+  def compare(self, case, impl_out, model_out):
+    case = self.normalise(case)
+    if case['kind'] != 'list':
+      model_out = copy.deepcopy(model_out)
+      if isinstance(model_out.get('construct'), list):
+        model_out['construct'] = sorted([[k, canon(v)] for k, v in model_out['construct']])
+      for s in model_out.get('steps', []):
+        s['items'] = sorted([[k, canon(v)] for k, v in s['items']])
+    return super().compare(case, impl_out, model_out)
+
+  # -- the property itself --------------------------------------------------------------------
   def oracle(self, case, out):
+    case = self.normalise(case)
     m = out['model']
+    kind = case['kind']
     if isinstance(m['construct'], str):
       if m['construct'] not in SCHEMA_ERRS:
         return {'signature': 'construct-error-class:' + m['construct'], 'what': 'constructor raised ' + m['construct']}
       return None
     st = out['state']
-    mn, mx = st[2], st[3]
     if not m['conforms']:
-      return {'signature': 'construct-nonconforming', 'what': 'constructed list %s violates %s' % (json.dumps(m['construct']), json.dumps(st))}
+      return {'signature': 'construct-nonconforming:' + kind,
+              'what': 'constructed %s %s violates its spec %s' % (kind, json.dumps(m['construct']), json.dumps(st))}
+    if not out.get('typed', True):
+      return {'signature': 'value-spec-lost:' + kind, 'what': 'the container is no longer bound to its value spec'}
+    partial_allowed = kind != 'list' and case['partial']
+    if kind != 'list' and not partial_allowed and not m['complete']:
+      return {'signature': 'construct-partial:' + kind, 'what': 'constructed without allow_partial but a required field is missing: %s' % json.dumps(m['construct'])}
     prev = m['construct']
-    for op, s in zip(case['ops'], m['steps']):
+    ops = case['ops'] if kind == 'list' else [o for o, _ in case['ops']]
+    scopes = [None] * len(ops) if kind == 'list' else [s for _, s in case['ops']]
+    for op, scope, s in zip(ops, scopes, m['steps']):
+      if scope:
+        partial_allowed = True
       if not s['conforms']:
-        size_bad = len(s['items']) < mn or (mx is not None and len(s['items']) > mx)
-        sig = ('size-out-of-bounds:' if size_bad else 'member-rejected-by-spec:') + op[0]
-        return {'signature': sig, 'what': 'after %s the list %s violates its spec %s' % (
-            json.dumps(op), json.dumps(s['items']), json.dumps(st))}
+        if kind == 'list':
+          mn, mx = st[2], st[3]
+          size_bad = len(s['items']) < mn or (mx is not None and len(s['items']) > mx)
+          sig = ('size-out-of-bounds:' if size_bad else 'member-rejected-by-spec:') + op[0]
+        else:
+          sig = 'member-rejected-by-spec:%s:%s' % (kind, op[0])
+          t = self.typed_cause(case, op, s)
+          if t:
+            sig = 'typed-container-trusted:' + t
+        return {'signature': sig, 'what': 'after %s the %s %s violates its spec %s' % (
+            json.dumps(op), kind, json.dumps(s['items']), json.dumps(st))}
+      if kind != 'list' and not partial_allowed and not s['complete']:
+        return {'signature': 'required-field-missing:%s:%s' % (kind, op[0]),
+                'what': 'after %s (never partial) a required field is missing: %s' % (json.dumps(op), json.dumps(s['items']))}
       if s['err'] in SCHEMA_ERRS:
-        if op[0] == 'extend':
-          k = len(s['items']) - len(prev)
-          if k < 0 or s['items'][:len(prev)] != prev:
-            return {'signature': 'rejected-batch-changed-prefix', 'what': 'failed extend changed existing items'}
-        elif s['items'] != prev:
-          return {'signature': 'rejected-write-stored:' + op[0], 'what': '%s raised %s but the list changed from %s to %s' % (
-              json.dumps(op), s['err'], json.dumps(prev), json.dumps(s['items']))}
+        batch = op[0] in ('extend', 'iadd', 'extend_iter', 'iadd_iter', 'imul', 'setslice', 'rebind', 'update', 'ior')
+        if not batch and s['items'] != prev:
+          return {'signature': 'rejected-write-stored:%s:%s' % (kind, op[0]),
+                  'what': '%s raised %s but the %s changed from %s to %s' % (
+                      json.dumps(op), s['err'], kind, json.dumps(prev), json.dumps(s['items']))}
       prev = s['items']
+    return None
+
+  def typed_cause(self, case, op, step):
+    """If the violating member was written as an already typed container whose spec the field
+    declared compatible, the C04 class of that (unsound) compatibility verdict."""
+    from harness import c04
+    args = []
+    if op[0] in ('setitem', 'setattr', 'setdefault'):
+      args = [(op[1], op[2])]
+    elif op[0] in ('update', 'ior', 'rebind'):
+      args = [(k, v) for k, v in op[1]]
+    fields = {f[0][1]: f[1] for f in case['spec']['fields'] if f[0][0] == 'c'}
+    for k, a in args:
+      if a and a[0] == 'typed' and k in fields:
+        dst = tv.readback(tv.build(fields[k]))
+        src = tv.readback(tv.build(a[1]))
+        cands = [dst] + (dst[1] if dst[0] == 'union' else [])
+        for d in cands:
+          if d[0] == src[0]:
+            cls = c04.PROP.classify(d, src, a[3])
+            if '<-' in cls and (c04.dict_default_gap(d, src) or c04.dict_default_gap(src, d)):
+              cls = 'dict-field-default-ignored'   # compatibility does not look at field defaults (C04 F42)
+            if '<-' in cls and member_ok(tv.build(c04.strip_rx(fields[k])), canon(a[3]), True):
+              cls = 'str-regex-ignored'      # is_compatible documents that it ignores Str regexes
+            return cls
     return None
 
   def nontrivial(self, case, out):
@@ -193,13 +619,22 @@ class C03(Prop):
     return any(e is None for e in errs) and any(e is not None for e in errs)
 
   def describe(self, case, out):
+    case = self.normalise(case)
     m = out['model']
-    h = ['elem:' + case['spec']['elem']['k']]
+    kind = case['kind']
+    h = ['kind:' + kind]
+    if kind == 'list':
+      h.append('elem:' + case['spec']['elem']['k'])
+    else:
+      for _, fd in case['spec']['fields']:
+        h.append('field:' + tv.kind_path(fd))
+      h.append('partial:%s' % case['partial'])
     if isinstance(m['construct'], str):
       return h + ['construct:' + m['construct']]
     h.append('construct:ok')
-    for op, s in zip(case['ops'], m['steps']):
-      h.append('%s:%s' % (op[0], s['err'] or 'ok'))
+    ops = case['ops'] if kind == 'list' else [o for o, _ in case['ops']]
+    for op, s in zip(ops, m['steps']):
+      h.append('%s.%s:%s' % (kind, op[0], s['err'] or 'ok'))
     return h
 
   def shrink_candidates(self, case):
